@@ -434,6 +434,40 @@ def macro_route(work, lits, out):
             printed[int(a)] = bytes.fromhex(b.strip()).decode()
         out["rejected"] = rejected
         out["printed"] = printed
+        # the same macros used in a crate that is compiled as a DEPENDENCY of the package being built (not the primary package of the cargo
+        # invocation): a literal that is rejected in the primary package is rejected there too
+        sample = sorted(rejected)[:: max(1, len(rejected) // 60)][:60]
+        dep = os.path.join(crate, "litdep")
+        os.makedirs(os.path.join(dep, "src"), exist_ok=True)
+        with open(os.path.join(dep, "Cargo.toml"), "w") as f:
+            f.write('[package]\nname = "litdep"\nversion = "0.0.0"\nedition = "2024"\n[dependencies]\nlibcnb-data = { path = "%s/libcnb-data" }\n' % vp.REPO)
+        with open(os.path.join(dep, "src", "lib.rs"), "w") as f:
+            f.write("pub fn all() -> Vec<String> {\n    vec![\n")
+            for i in sample:
+                ty, s_ = lits[i]
+                f.write("        libcnb_data::%s!(%s).to_string(),\n" % (MACROS[ty], rust_lit(s_)))
+            f.write("    ]\n}\n")
+        with open(os.path.join(crate, "Cargo.toml"), "a") as f:
+            f.write('litdep = { path = "litdep" }\n')
+        with open(os.path.join(crate, "src", "main.rs"), "w") as f:
+            f.write("fn main() { println!(\"{}\", litdep::all().len()); }\n")
+        p = subprocess.run(["cargo", "check", "--offline", "--message-format=json", "-q"], cwd=crate, env=env, stdout=subprocess.PIPE, stderr=subprocess.PIPE, text=True)
+        dep_rejected = set()
+        for line in p.stdout.splitlines():
+            try:
+                m = json.loads(line)
+            except ValueError:
+                continue
+            if m.get("reason") != "compiler-message" or m["message"].get("level") != "error":
+                continue
+            for sp in m["message"].get("spans", []):
+                while sp is not None:
+                    if sp.get("file_name", "").endswith("lib.rs") and "litdep" in sp.get("file_name", ""):
+                        dep_rejected.add(sp["line_start"] - 3)      # lines 1-2 are the function head
+                        break
+                    sp = (sp.get("expansion") or {}).get("span")
+        out["dep_sample"] = sample
+        out["dep_not_rejected"] = [sample[k] for k in range(len(sample)) if k not in dep_rejected]
     except Exception as e:  # noqa: BLE001
         out["error"] = "literal route failed: %r" % (e,)
 
@@ -505,6 +539,11 @@ def run(tier, seed, work):
                     sh.violation("%s:macro-render" % ty, "%s!(%r) renders as %r" % (MACROS[ty], s, mout["printed"].get(i)), case)
                 sh.nontrivial.add((ty, "macro", "accept" if macro_ok else "reject", class_sig(s)))
         mon.close()
+        for i in mout.get("dep_not_rejected", []):
+            ty, s = lits[i]
+            sh.violation("%s:macro-accepts-in-dependency" % ty, "%s!(%r) is rejected when the crate that uses it is the package being built, but compiles when that crate is built as a dependency"
+                         % (MACROS[ty], s), {"type": ty, "input": hx(s.encode()), "input_repr": repr(s), "route": "literal macro in a dependency crate"})
+        sh.count("macro_literals_in_a_dependency_crate", len(mout.get("dep_sample", [])))
         sh.count("macro_literals", len(lits))
         sh.count("macro_rejected_at_compile_time", len(mout["rejected"]))
         res.merge(sh.dict())
